@@ -398,6 +398,11 @@ func (o *oracles) diff(prev, snap *scheduler.VerifSnapshot, pending []observatio
 			}
 			if !retried {
 				w.violate("C02/stage-regressed", fmt.Sprintf("operation %s went from EXECUTING back to QUEUED without a size class retry", op.Name))
+				if submitted != nil && isSuccess(submitted) && submittedHash == op.ActionDigest {
+					// The worker's successful completion was the end of
+					// the task: queueing it again restarts a completed task.
+					w.violate("C01/restarted-after-completion", fmt.Sprintf("worker %s reported the successful completion of action %s (%q) and operation %s of that task is QUEUED again instead of COMPLETED: a completed task is about to be started again", actingWorker.name, short(submittedHash), submitted.Message, op.Name))
+				}
 			}
 		}
 		if pop != nil && pop.TaskID == op.TaskID && pop.Stage != remoteexecution.ExecutionStage_COMPLETED && pop.Queue != op.Queue && op.Stage != remoteexecution.ExecutionStage_COMPLETED {
